@@ -270,6 +270,24 @@ Arguments at_relative_tolerance {F} _.
 Arguments at_rho {F} _.
 Arguments at_verbose {F} _.
 
+(* enumerate(l) *)
+Definition py_enumerate {A : Type} (l : list A) : list (Z * A) := combine (zrange (py_len l)) l.
+
+(* l[i].append(v) on a list of lists (negative i wraps, IndexError outside) *)
+Definition py_append_at {A : Type} (l : list (list A)) (i : Z) (v : A) : res (list (list A)) :=
+  inner <- py_getitem l i ;;
+  let k := Z.to_nat (if i <? 0 then i + py_len l else i) in
+  Ret (set_nth k (inner ++ [v])%list l).
+
+(* the fields of ModelState that main_loop._compute_log_likelihood_by_cluster reads *)
+Record ll_args : Type := mk_ll_args { la_window_size : Z; la_num_clusters : Z }.
+Record ll_model (CL : Type) : Type := mk_ll_model {
+  lm_arguments : ll_args; lm_clusters : list CL; lm_point_labels : list Z }.
+Arguments mk_ll_model {CL} _ _ _.
+Arguments lm_arguments {CL} _.
+Arguments lm_clusters {CL} _.
+Arguments lm_point_labels {CL} _.
+
 (* ---- facts used by every equivalence proof ---- *)
 Lemma bind_ret {A B : Type} (a : A) (f : A -> res B) : bind (Ret a) f = f a.
 Proof. reflexivity. Qed.
